@@ -125,7 +125,8 @@ def oracle(c, st, out):
     wc = wanted_cats(c)
     exp = {z: expected_row(c, z, wc) for z in wz}
     must_raise = any(e == "raises" for row in exp.values() for e, _ in row)
-    feat_ninf = bool(np.isneginf(Z.case_arrays(c)[0].astype(np.float64)).any())
+    facts = Z.source_facts()
+    feat_ninf = bool(np.isneginf(Z.case_arrays(c)[0].astype(np.float64)).any()) and not facts.get("stripIndices")
     generic = "crosstab:neg-inf-zone-cells-shift-slices" if feat_ninf else "crosstab:table"
     if st != "ok":
         if must_raise and st == "err:ValueError":
@@ -159,7 +160,7 @@ def oracle(c, st, out):
             f"row {out['zone'].index(bad[0])} is labelled zone {bad[0]} but holds the counts of zone " \
             f"{wz[out['zone'].index(bad[0])]} (zone_ids given as {c.get('zone_ids')})"
     what = f"zone {bad[0]}, category {bad[1]}: {c['agg']} = {bad[2]}, the table over the zone's valid cells gives {bad[3]}"
-    if "layers" not in c and c.get("cat_ids") is not None and not feat_ninf:
+    if "layers" not in c and c.get("cat_ids") is not None and not feat_ninf and not facts.get("catStartAlways"):
         sel = {untok(t) for t in c["cat_ids"]}
         if any(cat not in sel for cat in present_cats(c)):
             return "crosstab:unselected-category-counted", what + f" (cat_ids={c['cat_ids']} skips categories that are present)"
